@@ -376,19 +376,21 @@ theorem produce_append_aux (s : State) (v12 : Bool) (k epoch seq n nbytes : Int)
     split
     · left; rfl
     · split
-      · right; exact ⟨pd, hpd, by simp [setPart], rfl, rfl⟩
-      · simp only
-        split
-        · left; simp [getOrCreate_parts, pidsGet_parts]
-        · split
+      · left; rfl
+      · split
+        · right; exact ⟨pd, hpd, by simp [setPart], rfl, rfl⟩
+        · simp only
+          split
           · left; simp [getOrCreate_parts, pidsGet_parts]
           · split
             · left; simp [getOrCreate_parts, pidsGet_parts]
             · split
-              · left; simp [setProd_parts, getOrCreate_parts, pidsGet_parts]
-              · left; simp [setProd_parts, getOrCreate_parts, pidsGet_parts]
-              · right
-                exact ⟨pd, hpd, by cases tx <;> simp [setPart, setProd_parts, getOrCreate_parts, pidsGet_parts], rfl, rfl⟩
+              · left; simp [getOrCreate_parts, pidsGet_parts]
+              · split
+                · left; simp [setProd_parts, getOrCreate_parts, pidsGet_parts]
+                · left; simp [setProd_parts, getOrCreate_parts, pidsGet_parts]
+                · right
+                  exact ⟨pd, hpd, by cases tx <;> simp [setPart, setProd_parts, getOrCreate_parts, pidsGet_parts], rfl, rfl⟩
 
 theorem pushBatch_hwm (pd : Part) (b : Batch) (t : Bool) : (pushBatch pd b t).hwm = pd.hwm + b.n := rfl
 
@@ -505,14 +507,20 @@ theorem step_inv (I : Part → Prop) (hp : Pres I) (s : State) (o : Op) (hv : Op
     simp only [step]; split
     · exact h
     · rename_i pd hpd
-      apply expireAll_inv I hp
-      unfold AllI setPart
-      exact set_inv I _ _ _ h (hp.del pd off (h pd (List.mem_of_getElem? hpd)))
+      split
+      · exact expireAll_inv I hp s h
+      · apply expireAll_inv I hp
+        unfold AllI setPart
+        exact set_inv I _ _ _ h (hp.del pd off (h pd (List.mem_of_getElem? hpd)))
   | sleep ms =>
     simp only [step]; apply expireAll_inv I hp; exact h
   | fetch f ord =>
     simp only [step]; apply expireAll_inv I hp
     exact fetchW_inv I hp s f ord h
+  | move p b =>
+    simp only [step]; split <;> exact h
+  | via b =>
+    simp only [step]; split <;> exact h
 
 theorem init_inv (I : Part → Prop) (h0 : I {}) (np : Nat) : AllI I (init np) := by
   intro pd hpd
